@@ -128,6 +128,17 @@ PROPS = {
         "families": [("registry", 300, 3000)],
         "relevant": r'"op":"(from_registry|setup|register|replace|unregister|try_from_registry|already_running)"', "relevant_min": 2,
     },
+    "C09": {
+        "invariants": ["C09", "Term_WeakInert", "Term_RegNoHang"],
+        "mc": {"quick": [mc("Broker-q-2x2", actors=("a1", "a2", "r1"), extra_actors="SubActors", extra_handles="SubHandles", ops=("publish", "send", "drop"),
+                            scripts="ScriptsPub", cfgs="CfgsSub1", must_cover=("RegIssue", "RegBody", "RegPingReturn", "ScriptStep", "HandleBegin"))],
+               "thorough": [mc("Broker-2x2", actors=("a1", "a2", "r1"), extra_actors="SubActors", extra_handles="SubHandles", ops=("publish", "send", "drop"),
+                               scripts="ScriptsBroker", cfgs="CfgsSub"),
+                            mc("Broker-2x3", maxops=3, actors=("a1", "a2", "r1"), extra_actors="SubActors", extra_handles="SubHandles", ops=("publish", "send", "drop", "stop"),
+                               scripts="ScriptsBroker", cfgs="CfgsSub")]},
+        "families": [("broker", 300, 3000)],
+        "relevant": r'"src":"broker"', "relevant_min": 1,
+    },
     "C10": {
         "invariants": ["C10", "Term_NoTimerLeak", "Term_ExactlyK", "Term_WeakInert"],
         "mc": {"quick": [mc("Timers-idle-1x1", clients=("c1",), maxops=1, ops=("send", "stop", "drop"), scripts="ScriptsPlain", cfgs="CfgsTimers", horizon=6, idle=True,
